@@ -129,6 +129,12 @@ class Program:
         # names that a later change only renamed are renamed back before anything is indexed (renames.py)
         from . import renames as _renames
         self.renames: Dict[str, str] = _renames.canonicalise({m.name: m.tree for m in self.modules.values()}) if self.package == PACKAGE else {}
+        if self.package == PACKAGE:
+            by_callers = _renames.rename_by_callers({m.name: m.tree for m in self.modules.values()})
+            self.renames.update(by_callers)
+            if by_callers:      # a method that is back under its name can make a renamed field of its class recognisable
+                self.renames.update(_renames.canonicalise({m.name: m.tree for m in self.modules.values()}))
+        self.relocated: Dict[str, str] = _renames.relocate_methods({m.name: m.tree for m in self.modules.values()}) if self.package == PACKAGE else {}
         for m in self.modules.values():
             self._index_module(m)
         # a method of the pinned tree that its class no longer overrides: the base class's method, analysed for
